@@ -14,6 +14,13 @@ structure Node where
   height : Int
   ts : Int
   alive : Bool
+  /-- next-block-version variable in the state this block's result commits to (0 = unset) -/
+  sv : Int := 0
+  /-- version set by a transaction carried by this block (takes effect in its child's result) -/
+  txnv : Option Int := none
+
+/-- `ServiceManager.GetNextBlockVersion(result)`: the platform default (2) when the variable is unset -/
+def requiredVersion (sv : Int) : Int := if sv = 0 then 2 else sv
 
 structure St where
   started : Bool := false
@@ -65,16 +72,25 @@ def certOkFor (st : St) (vt : Nat) (cls : String) (prev : Blk Nat) (b : Cand Nat
 
 def nmapOf (st : St) : List (Blk Nat) :=
   (st.nodes.toList.zipIdx).filterMap (fun (nd, i) =>
-    if nd.alive then some { id := i, height := nd.height, ts := nd.ts, nextVersion := 2 } else none)
+    if nd.alive then some { id := i, height := nd.height, ts := nd.ts, nextVersion := requiredVersion nd.sv } else none)
 
 def doCand (st : St) (a : List String) : St × String :=
   match a with
-  | [pS, dhS, prevS, verS, vtS, cls, votesS, tsS] =>
+  | [pS, dhS, prevS, verS, vtS, cls, votesS, tsS, nvS] =>
+    let nv? : Option (Option Int) :=
+      if nvS == "-" then some none
+      else match nvS.toInt? with
+        | some k => if -(2:Int)^31 ≤ k ∧ k < (2:Int)^31 ∧ k ≠ 0 then some (some k) else none
+        | none => none
+    match nv? with
+    | none => (st, "bad-op")
+    | some nv =>
     let n := st.nodes.size
     match parseI64 pS, parseI64 dhS, parseI64 verS with
     | some pv, some dh, some ver =>
-      if pv < -1 ∨ n = 0 then (st, "bad-op") else
-      let pi := if pv < 0 then n - 1 else (pv.toNat % n)
+      if pv < -2 ∨ n = 0 then (st, "bad-op") else
+      let pi := if pv = -2 then (match st.nodes[n - 1]? with | some x => if n = 1 then 0 else x.parent | none => 0)
+                else if pv < 0 then n - 1 else (pv.toNat % n)
       match st.nodes[pi]? with
       | none => (st, "bad-op")
       | some P =>
@@ -99,14 +115,20 @@ def doCand (st : St) (a : List String) : St × String :=
               match ts? with
               | none => (st, "bad-op")
               | some ts =>
+                if nv.isSome ∧ (ts ≥ (2:Int)^60 ∨ ts ≤ -(2:Int)^60) then (st, "bad-op") else
                 let st1 := { st with serial := st.serial + 1 }
                 -- an id nobody has: `rand` previous id
                 let prevID : Nat := match prevIdx with | some k => k | none => 1000000000 + st1.serial
                 let b : Cand Nat := { version := ver, height := height, prevID := prevID, ts := ts, votes := votes }
                 let v := importBlock (certOkFor st vti cls) (nmapOf st) b
-                let out := s!"{v.toString} h={height} ts={ts} med={med} P={P.height}/{P.ts}"
+                let out := s!"{v.toString} h={height} ts={ts} med={med} P={P.height}/{P.ts}/v{requiredVersion P.sv}"
                 if v = .accept then
-                  ({ st1 with nodes := st1.nodes.push { parent := prevID, height := height, ts := ts, alive := true } }, out)
+                  -- the new block's result is its parent's state after the parent's transactions
+                  let par := st.nodes[prevID]?
+                  let sv' : Int := match par with
+                    | some q => (match q.txnv with | some k => k | none => q.sv)
+                    | none => 0
+                  ({ st1 with nodes := st1.nodes.push { parent := prevID, height := height, ts := ts, alive := true, sv := sv', txnv := nv } }, out)
                 else (st1, out)
           | [] => (st, "bad-op")
         | _, _, _ => (st, "bad-op")
